@@ -502,7 +502,10 @@ func fieldIndex(t types.Type, name string) int {
 
 // resolveHeapName maps "T.f" (type in the env package, or pkg.T.f) to the heap name.
 func (x *Exec) resolveHeapName(env *SpecEnv, spec string) string {
-	if strings.Contains(spec, "$") {
+	if strings.Contains(spec, "$") || !strings.Contains(spec, ".") {
+		if _, ok := x.heapSorts[spec]; !ok && spec == "SSP" {
+			x.heapSorts[spec] = "(Array Int (Array Str Bool))"
+		}
 		return spec
 	}
 	parts := strings.Split(spec, ".")
